@@ -90,7 +90,7 @@ def list_ops(defs, locs):
 # (two definitions writing one slot through differently spelled keys, l[0] and l[np.int64(0)], are
 # left out: they are two independent tasks with the same effect location, their relative order is
 # unspecified in either build)
-NPKINDS = ("int64_target", "int32_target", "int64_read", "uint8_read")
+NPKINDS = ("int64_target", "int32_target", "int64_read", "uint8_read", "npstr_target", "npstr_read")
 
 
 def _npkey(st, op):
@@ -113,6 +113,16 @@ def _npkey(st, op):
     elif kind == "uint8_read":
         U.assign(st.r, t, l[np.uint8(0)] + 1)
         st.defs[t] = ("add", ("loc", "l0"), ("const", 1))
+    elif kind == "npstr_target":
+        # str-subclass keys (names read out of a numpy string array)
+        other = "c" if t != "c" else "b"
+        st.r[np.str_(other)] = src * 2
+        st.defs[other] = ("mul", ("loc", t), ("const", 2))
+        st.np_defined = (other,)
+    elif kind == "npstr_read":
+        other = "c" if t != "c" else "b"
+        U.assign(st.r, t, st.r[np.str_(other)] + 1)
+        st.defs[t] = ("add", ("loc", other), ("const", 1))
     else:
         raise ValueError(kind)
     st.ex.notes["numpy_keys"] = st.ex.notes.get("numpy_keys", 0) + 1
